@@ -4,6 +4,7 @@ from ..core.davsys import Config
 from . import e1common
 
 ASSUME = [
+    "size sweep: the collection is grown member by member to 140; initial and incremental reports are checked at every size up to 8 and around 16, 32, 64, 100 and 128",
     "one configuration has two workers: a second application object with its own store cache on the same directory (gunicorn workers = 2 in the repository's examples); every write is offered to either worker, and after every request both workers are audited and must show the same",
     "after every step of every explored history one report is issued per token issued earlier in that history, plus the empty token: all pairs (i, j>=i)",
     "expected change list = diff of the audited member->etag maps at i and j (created/changed with current etag, removed as 404, nothing else, each once)",
@@ -152,6 +153,6 @@ def run(tier, workers=None):
             return []
         return [[("put", "cal", "a.ics", "X"), ("delcoll", "cal"), ("mkcalendar", "cal")], [("put", "cal", "a.ics", "X"), ("put", "cal", "b.ics", "Z"), ("delcoll", "cal"), ("mkcalendar", "cal"), ("put", "cal", "b.ics", "Z")]]
 
-    return e1common.run_configs("C07", tier, configs(tier), depth_of, workers=workers, seeds=seeds, extra=lambda rep: overlap_phase(rep, workers), assumptions=ASSUME + [
+    return e1common.run_configs("C07", tier, configs(tier), depth_of, workers=workers, seeds=seeds, extra=lambda rep: dict(overlap_phase(rep, workers), **__import__("xv.checks.sizes", fromlist=["x"]).run_sweep(rep, "C07", ["sync"])), assumptions=ASSUME + [
         "overlap phase (E5): one write (create, replace, delete) handled to completion at every suspension point of a sync-collection report in the single-process server; replica = old replica + report + next sync must equal the collection",
     ])
